@@ -579,7 +579,7 @@ pub fn check_issued(
         for (k, v) in u {
             path.push(Seg::Key(k.clone()));
             if st.designated(path) {
-                if p.contains_key(k) {
+                if p.contains_key(k) && !(top && has_cnf && k == "cnf") {
                     return Err(format!("designated claim {} is in clear in the payload", path_str(path)));
                 }
                 let ds = here.remove(k).unwrap_or_default();
@@ -667,11 +667,15 @@ pub fn check_issued(
         Some("sha-256") => {}
         other => return Err(format!("_sd_alg is {other:?}, expected sha-256")),
     }
+    // a user-supplied top-level cnf that the strategy leaves visible is an ordinary claim: it is shown
+    // in clear with its own value (checked by the walk below); otherwise cnf is the holder key or absent
+    let user_cnf_visible = uo.contains_key("cnf") && !strategy.designated(&[Seg::Key("cnf".into())]);
     match (expect_cnf, payload.get("cnf")) {
+        _ if user_cnf_visible => {}
         (None, None) => {}
         (None, Some(c)) => return Err(format!("payload has cnf {c} although no holder key was given")),
         (Some(j), Some(c)) => {
-            if c.get("jwk") != Some(j) {
+            if *c != json!({ "jwk": j }) {
                 return Err(format!("payload cnf is {c}, expected jwk {j}"));
             }
         }
